@@ -533,6 +533,9 @@ class Ctx:
                 path = self._write_replay(v)
                 print("VIOLATION property=%s replay=%s no-failing-input-found" % (prop, path))
                 rc = 1
+        if os.environ.get("VERIF_DEBUG"):
+            for v in self.violations:
+                log("DEBUG-VIOLATION", v.get("kind"), str(v.get("what"))[:400])
         cov = dict(self.coverage)
         cov.setdefault("obligations", len(self.obligations))
         cov.setdefault("discharged", len(self.discharged))
